@@ -85,7 +85,11 @@ fn gen_enum(rng: &mut Rng, n: &mut Names) -> Decl {
     let k = n.fresh();
     let name = format!("En{k}");
     let count = rng.range(2, 4);
-    let vals: Vec<String> = (0..count).map(|i| format!("V{k}_{i}")).collect();
+    let mut vals: Vec<String> = (0..count).map(|i| format!("V{k}_{i}")).collect();
+    if rng.chance(1, 3) {
+        // a value name that other enumerations use as well (legal: the type disambiguates)
+        vals.push("SHARED_OFF".to_string());
+    }
     let init = if rng.chance(1, 2) { format!(" := {}", respell(rng, &vals[0])) } else { String::new() };
     let text = format!("TYPE\n  {name} : ({}){init};\nEND_TYPE\n", vals.join(", "));
     n.enums.push((name.clone(), vals));
@@ -132,6 +136,7 @@ fn var_type(rng: &mut Rng, n: &Names, allow_struct: bool) -> (String, Option<Str
         ("REAL".into(), None),
     ];
     for (e, vals) in &n.enums {
+        // (the last value may be the one shared with other enumerations)
         options.push((e.clone(), Some(vals[vals.len() - 1].clone())));
         options.push((e.clone(), None));
     }
@@ -400,7 +405,7 @@ pub const FAULT_KINDS: &[&str] = &[
 
 /// Fault kinds whose faulty declaration(s) fail on their own (no other declaration needed).
 pub fn is_standalone(kind: &str) -> bool {
-    !matches!(kind, "enum_value_undefined" | "external_not_const" | "const_fb" | "global_not_external" | "invoke_undeclared_instance")
+    !matches!(kind, "enum_value_undefined" | "const_fb" | "global_not_external" | "invoke_undeclared_instance")
 }
 
 pub fn is_name_clash(kind: &str) -> bool {
@@ -463,10 +468,23 @@ pub fn gen_faulty(rng: &mut Rng, size: usize, kind: &str) -> World {
             &mut decls,
             decl("fault", &format!("Fb{k}"), format!("FUNCTION_BLOCK Fb{k}\n  VAR\n    cnt : INT;\n  END_VAR\n  cnt := nowhere{k} + 1;\nEND_FUNCTION_BLOCK\n")),
         ),
-        "const_no_init" => push(
-            &mut decls,
-            decl("fault", &format!("Fb{k}"), format!("FUNCTION_BLOCK Fb{k}\n  VAR CONSTANT\n    cnt : INT;\n  END_VAR\nEND_FUNCTION_BLOCK\n")),
-        ),
+        "const_no_init" => {
+            // sometimes the constant carries the name of a configuration global that other blocks
+            // declare VAR_EXTERNAL CONSTANT
+            let cname = if rng.chance(1, 2) {
+                if n.globals.is_empty() {
+                    let d = gen_config(rng, &mut n, false, true);
+                    decls.push(d);
+                }
+                rng.pick(&n.globals).clone()
+            } else {
+                "cnt".to_string()
+            };
+            push(
+                &mut decls,
+                decl("fault", &format!("Fb{k}"), format!("FUNCTION_BLOCK Fb{k}\n  VAR CONSTANT\n    {cname} : INT;\n  END_VAR\nEND_FUNCTION_BLOCK\n")),
+            );
+        }
         "const_fb" => {
             if n.fbs.is_empty() {
                 decls.push(gen_fb(rng, &mut n));
@@ -503,6 +521,11 @@ pub fn gen_faulty(rng: &mut Rng, size: usize, kind: &str) -> World {
                 &mut decls,
                 decl("fault", &format!("Fb{k}"), format!("FUNCTION_BLOCK Fb{k}\n  VAR_EXTERNAL\n    {g} : INT;\n  END_VAR\nEND_FUNCTION_BLOCK\n")),
             );
+            if rng.chance(1, 2) {
+                // an accompanying second configuration with a NON-constant global of the same name
+                let k3 = n.fresh();
+                decls.push(decl("config", &format!("Cfg{k3}"), format!("CONFIGURATION Cfg{k3}\n  VAR_GLOBAL\n    {g} : INT := 3;\n  END_VAR\n  RESOURCE res{k3} ON PLC\n    TASK tsk{k3}(INTERVAL := T#20ms, PRIORITY := 1);\n    PROGRAM inst{k3} WITH tsk{k3} : plc_prg;\n  END_RESOURCE\nEND_CONFIGURATION\n")));
+            }
         }
         "recursion_self" => push(
             &mut decls,
@@ -609,12 +632,18 @@ pub fn gen_faulty(rng: &mut Rng, size: usize, kind: &str) -> World {
                 "fb_call_unknown_input" => "inst(in1 := TRUE, nosuch := TRUE);",
                 "fb_call_mixed" => "inst(in1 := TRUE, FALSE);",
                 "fb_call_too_few" => "inst(TRUE);",
-                _ => "inst(nosuchout => l);",
+                _ => "inst(in1 := TRUE, in2 := FALSE, nosuchout => l);",
             };
             push(
                 &mut decls,
-                decl("fault", &format!("Caller{k2}"), format!("FUNCTION_BLOCK Caller{k2}\n  VAR\n    inst : Callee{k};\n    l : BOOL;\n  END_VAR\n  inst(in1 := TRUE, in2 := FALSE, out1 => l);\n  {call}\nEND_FUNCTION_BLOCK\n")),
+                decl("fault", &format!("Caller{k2}"), format!("FUNCTION_BLOCK Caller{k2}\n  VAR\n    inst : Callee{k};\n    l : BOOL;\n  END_VAR\n  {call}\nEND_FUNCTION_BLOCK\n")),
             );
+            if rng.chance(2, 3) {
+                // an accompanying, valid caller of the same block type with the same inputs
+                let k3 = n.fresh();
+                let unit = if rng.chance(1, 2) { ("PROGRAM", "END_PROGRAM") } else { ("FUNCTION_BLOCK", "END_FUNCTION_BLOCK") };
+                decls.push(decl("fb", &format!("Good{k3}"), format!("{} Good{k3}\n  VAR\n    inst : Callee{k};\n    l : BOOL;\n  END_VAR\n  inst(in1 := TRUE, in2 := FALSE, out1 => l);\n{}\n", unit.0, unit.1)));
+            }
         }
         "alias_unknown" => push(&mut decls, decl("fault", &format!("Al{k}"), format!("TYPE\n  Al{k} : NoSuchType{k};\nEND_TYPE\n"))),
         other => panic!("unknown fault kind {other}"),
